@@ -100,16 +100,38 @@ def run(tier, v):
     # 3. M1: free-running stress
     import c02_stress
     st = c02_stress.run(tier, v, b, d)
+    # 3b. M1: lazy start under contention (first Next() of a never-started doAt schedule)
+    lz = os.path.join(d, "lazy.ndjson")
+    ntrials = 1000000 if thorough else 200000
+    vlib.run_driver(b, ["schedlazy", "-out", lz, "-trials", str(ntrials)], timeout=1800)
+    tl = vlib.tlc("TraceLazyStart", "TraceLazyStart.cfg", env={"VERIF_TRACE": lz}, cont=True, timeout=1800, heap="8g")
+    if tl.error:
+        raise vlib.MachineryError("TraceLazyStart failed: %s\n%s" % (tl.kind, tl.out[-3000:]))
+    lrows = vlib.read_ndjson(lz)
+    if tl.distinct != len(lrows) + 1:
+        raise vlib.MachineryError("TraceLazyStart visited %d states for %d lines" % (tl.distinct, len(lrows)))
+    seen_l = set()
+    for inv, stt in tl.all_violations:
+        ln = int(stt.get("l", "0"))
+        if ln < 1 or (inv, ln) in seen_l:
+            continue
+        seen_l.add((inv, ln))
+        row = lrows[ln - 1]
+        badt = [t for t in row["trials"] if t["ok"] != row["n"] or t["end"] != row["g"] or t["dist"] != 1 or t["loneg"] or t["hineg"]][:3]
+        v.violation("lazystart inv=%s n=%d" % (inv, row["n"]),
+                    "once(%d) never Start()ed, %d goroutines released together: %s fails, e.g. trials %s" % (row["n"], row["g"], inv, badt),
+                    replay_obj={"kind": "lazy", "invariant": inv, "line": row}, replay_name="lazy_%d_%s.json" % (ln, inv))
     samples = [{"tree": tree_sig(bh["tree"]), "mode": bh["tree"]["mode"],
                 "steps": [[e["c"], e["a"], e["node"]] + ([e["ret"]] if e["ret"] else []) for e in bh["hist"][:14]]}
                for bh in behs[:2]] + st["samples"][:2]
     cov = {
         "states": states, "transitions": trans,
-        "traces_validated_against_impl": validated + st["validated"],
+        "traces_validated_against_impl": validated + st["validated"] + len(lrows),
         "samples": samples,
         "replayed_behaviours": len(behs), "distinct_replayed_behaviours": distinct_beh,
         "replay_events_validated_states": tstates,
         "stress_runs": st["runs"], "stress_events": st["events"],
+        "lazy_start_trials": ntrials,
         "negative_controls": ["leftbug", "norecheck", "unlearly", "ctorshift"],
         "design_configs": cfgs,
         "exhaustive": False,
@@ -123,6 +145,13 @@ def run(tier, v):
 def replay(path, v):
     obj = json.load(open(path))
     d = vlib.scratch()
+    if obj.get("kind") == "lazy":
+        p = os.path.join(d, "lazy1.ndjson")
+        vlib.write_ndjson(p, [obj["line"]])
+        tl = vlib.tlc("TraceLazyStart", "TraceLazyStart.cfg", env={"VERIF_TRACE": p}, cont=True)
+        for inv, _ in tl.all_violations:
+            v.violation("lazystart inv=%s n=%d" % (inv, obj["line"]["n"]), "recorded batch violates %s" % inv)
+        return None
     if obj.get("kind") == "replay":
         b = vlib.harness_build()
         beh = obj["behaviour"]
